@@ -15,7 +15,7 @@ viol=re.findall(r'^VIOLATION .*$',out,re.M)
 summary=[l for l in out.splitlines() if re.match(r'^C\d\d: \d+ obligations',l)]
 m.update({
  "property":i,"variant":dv,"round":int(os.environ.get("SEED_ROUND","4")),
- "author":"independent sub-agent given only the property text and a scratch worktree (rounds 4-6: asked for changes that need a specific input, sequence, fault point or two cooperating sites)",
+ "author":"independent sub-agent given only the property text and a scratch worktree (rounds 4-8: asked for changes that need a specific input, sequence, fault point or two cooperating sites)",
  "confirmed_by_me":"tools/seedbatch.sh on a private clone of /repo without the contract files: the patch applies; go build ./... and the suite pass with it (only the pre-existing mathext/zipf failures); the demo passes without the change (exit 0) and fails with it (exit 1)",
  "check_run":"on the clone with the patch applied: bin/govc -repo <clone> -prop %s -tier quick (= ./check %s against that tree)"%(i,i),
  "check_result":"detected" if viol else "MISSED",
